@@ -1330,6 +1330,83 @@ fn gen_rollback_sweep(rng: &mut Rng, start: i64, n: i64) -> Case {
     Case { line: format!("reopen {} | {}", gen_cfg(rng), ops.join(" ; ")), tags }
 }
 
+/// a transaction REFUSED at commit (first committer wins) is rolled back like any other and has to stay rolled back
+/// across a close: two sessions write the same row (both delete it) or insert the same unique key, the loser also
+/// inserts elsewhere, the winner commits, the loser's COMMIT is refused, more work is committed, close, open, read.
+/// The loser is the FIRST deleter / the SECOND inserter: the row's delete mark and the key's index entry are then the
+/// winner's (the other order is the single-slot / one-entry findings of C04 / C07).
+fn gen_refused_commit(rng: &mut Rng) -> Case {
+    let mut ops: Vec<String> = vec!["create t(k:big,v:int)".into(), "create u(k:big*,v:int!,w:text)".into()];
+    let n = rng.range(2, 5);
+    let rows: Vec<String> = (1..=n).map(|k| format!("{} {}", k, 10 * k)).collect();
+    ops.push(format!("db ins t {}", rows.join(" , ")));
+    ops.push("db ins u 1 1 'a' , 2 2 'b'".into());
+    if rng.chance(1, 3) {
+        ops.push(format!("burn {}", rng.range(1, 40)));
+    }
+    let mut key = 100;
+    let mut kinds: Vec<&str> = Vec::new();
+    for _ in 0..rng.range(1, 3) {
+        key += 10;
+        let (lo, wi) = if rng.chance(1, 2) { ("s1", "s2") } else { ("s2", "s1") };
+        ops.push(format!("{} begin", lo));
+        ops.push(format!("{} begin", wi));
+        let same_row = rng.chance(1, 2);
+        if same_row {
+            kinds.push("refused_same_row");
+            let victim = rng.range(1, n);
+            // the row may be gone already (an earlier round deleted it): both DELETEs then touch nothing and both commit
+            ops.push(format!("{} del t where k eq {}", lo, victim));
+            ops.push(format!("{} ins t {} 1", lo, key));
+            ops.push(format!("{} del t where k eq {}", wi, victim));
+        } else {
+            kinds.push("refused_same_key");
+            ops.push(format!("{} ins u {} 5 'w'", wi, key));
+            ops.push(format!("{} ins u {} 6 'l'", lo, key));
+            ops.push(format!("{} ins t {} 2", lo, key));
+        }
+        // the loser writes elsewhere too
+        ops.push(format!("{} ins u {} 7 'x'", lo, key + 1));
+        if rng.chance(1, 2) {
+            ops.push(format!("{} ins t {} 3 , {} 4", lo, key + 2, key + 3));
+        }
+        if rng.chance(1, 2) {
+            ops.push(format!("{} ins t {} 8", wi, key + 4));
+        }
+        ops.push(format!("{} commit", wi));
+        ops.push(format!("{} commit", lo));
+        // committed work after the refusal
+        match rng.below(3) {
+            0 => ops.push(format!("db ins t {} 9", key + 5)),
+            1 => ops.push(format!("s3 begin ; s3 ins u {} 9 'y' ; s3 commit", key + 6)),
+            _ => ops.push("tid".into()),
+        }
+        if rng.chance(1, 3) {
+            ops.push("db sel t ; db sel u".into());
+        }
+    }
+    if rng.chance(1, 4) {
+        ops.push("vacuum".into());
+    }
+    ops.push(format!("reopen {} {}", rng.pick(&["drop", "flush", "leak"]), gen_cfg(rng)));
+    ops.push("tid".into());
+    ops.push("db sel t ; db sel u".into());
+    // a key only the loser had inserted is free; one the winner inserted is taken
+    ops.push(format!("db ins u {} 1 'free'", key + 1));
+    ops.push("db ins u 1 1 'dup'".into());
+    if rng.chance(1, 2) {
+        ops.push(format!("reopen {} {}", rng.pick(&["drop", "flush"]), gen_cfg(rng)));
+        ops.push("db sel t ; db sel u".into());
+    }
+    let mut tags: Vec<String> = vec!["refused_commit".into(), "concurrent_sessions".into(), "nt".into(), "clean".into()];
+    for k in kinds {
+        if !tags.iter().any(|t| t == k) {
+            tags.push(k.to_string());
+        }
+    }
+    Case { line: format!("reopen {} | {}", gen_cfg(rng), ops.join(" ; ")), tags }
+}
+
 impl Engine for ReopenEngine {
     fn gen_cases(&self, rng: &mut Rng, tier: Tier) -> Vec<Case> {
         let quick = tier == Tier::Quick;
@@ -1344,6 +1421,9 @@ impl Engine for ReopenEngine {
         }
         for _ in 0..(if quick { 2 } else { 10 }) {
             out.push(gen_many_inserts(rng));
+        }
+        for _ in 0..(if quick { 24 } else { 240 }) {
+            out.push(gen_refused_commit(rng));
         }
         for _ in 0..(if quick { 2 } else { 6 }) {
             let start = rng.range(0, 200);
